@@ -13,7 +13,7 @@ import traceback
 
 STALL_CLASSES = ['fs', 'fs', 'dest-write', 'src-read', 'lock-acquire', 'lock-release', 'event-set', 'sem-acquire',
                  'req-begin', 'req-end', 'body-read', 'cb', 'executor-submit', 'task-finished', 'monitor', 'queue-put',
-                 'queue-get', 'client', 'subscriber-on_done', 'rename', 'got-chunk', 'sink-write']
+                 'queue-get', 'client', 'client-attr', 'subscriber-on_done', 'rename', 'got-chunk', 'sink-write']
 
 
 def label_class(label):
